@@ -112,8 +112,16 @@ func (s *Storer) newRunId(id string) error {
 	rdbAof := s.initDataSet()
 	if rdbAof != nil {
 		s.dataSetMux.Lock()
+		old := s.dataSet
 		s.dataSet = rdbAof
 		s.dataSetMux.Unlock()
+		// the readers of the replaced data set are not registered with the new one : nothing would
+		// keep the collector off their segments or end them at the next reset, and after a change
+		// of the run id they look for their next segment under a directory that no longer exists.
+		// End them, as a new writer does for the readers it knows
+		if old != nil {
+			old.Close()
+		}
 	}
 
 	return nil
